@@ -6,24 +6,24 @@ ROOT = os.path.dirname(os.path.dirname(os.path.abspath(__file__)))
 HEAD = {
  "C01": "`add_publishes` (any reachable state: device parser ⇒ caller's buffers, designated slot, +1), `direct/indirect_chain_parses`, `indirect_only_if_enabled`",
  "C02": "`publish_order`, `idx_store_last`, `one_idx_store`, `pop_stores`, `prefix_safe` (every store prefix, every reachable state); `decide` theorems over the regenerated publish skeleton",
- "C03": "`reachable_inv`, `reachable_no_panic`, `count_exact`, `add_accepts_iff`, `pop_releases_exactly`, `pop_notReady/wrongToken`, `pop_ok`; refinement to `AbsQueue`: `add_refines`, `pop_refines`, `devUsed_refines`, `reachable_refinement_invariants`",
+ "C03": "`reachable_inv`, `reachable_no_panic`, `count_exact`, `add_accepts_iff`, `pop_releases_exactly`, `pop_notReady/wrongToken`, `pop_ok`, `anwp_foreign_first`, `add_longer_than_queue_refused`; refinement to `AbsQueue`: `add_refines`, `pop_refines`, `devUsed_refines`, `reachable_refinement_invariants`",
  "C04": "`share_once`, `unshare_once`, `unshare_matches_share`, `share_ids_fresh`, `refused_shares_nothing`, `ledger_never_violated` (history level)",
- "C05": "`notify_sound` (all indices, batches ≤ 2^15), `notify_flag`, `usedEvent_rearmed`, `device_must_interrupt_next`, `blocking_told_event/flag`",
+ "C05": "`notify_sound` (all indices, batches ≤ 2^15), `notify_flag`, `usedEvent_rearmed`, `device_must_interrupt_next`, `blocking_told_event/flag`, `blocking_keeps_suppression_word`",
  "C06": "`new_ok` + `PlanOk`, `refuse_*`, `fail_kth`, `release_once`",
  "C07": "`hostile_device_harmless`, `add/pop/queries_noninterference`, `ledger_never_violated`",
- "C08": "`handshake_order`, `version1_accepted`, `skeleton_no_notify_before_driver_ok`, `queue_flags_are_negotiated_bits`, `legacyHeader_iff`",
+ "C08": "`handshake_order`, `version1_accepted`, `skeleton_no_notify_before_driver_ok`, `queue_flags_are_negotiated_bits`, `legacyHeader_iff`, `supported_within_implemented`; queue level (`C08Queue`): `add/pop/setDevNotify/blocking_no_usedEvent`",
  "C09": "`fail_kth`, `cfg_fail`, `drop_after_construct`, `no_reset_needed`, `needs_reset_on_drop`",
  "C10": "`all_legal`, `sel_discipline`, `modern_queue_set_ready_last`, `legacy_queue_set_ok`, `probe_accepts_iff`, `probe_no_write`",
- "C11": "`new_ok`, `scan_first`, `ops_only_windows`, `notify_address`, `drop_resets_and_waits`",
+ "C11": "`new_ok`, `scan_first`, `ops_only_windows`, `notify_address`, `drop_resets_and_waits`, `common_accesses_aligned` (every access naturally aligned in physical address space)",
  "C12": "`barInfo_decodes/restores/decode_off`, `cam_injective`, `enumerate_exact`, `capabilities_wellformed`, `capWalk_length_le`",
- "C13": "`access_ok_iff`, `fail_no_access`, `access_ok_exact`, `read_consistent_untorn` (any closure, any schedule), contract necessity examples",
+ "C13": "`access_ok_iff`, `fail_no_access`, `access_ok_exact`, `read_consistent_untorn` (any closure, any schedule), `schedule_contract` / `scheduleCyc_contract`, contract necessity examples",
  "C14": "`decode_encode`, `encode_matches_spec`, chain shapes, `any_completion_order`, `wf_run`",
- "C15": "`stream_exactly_once_in_order`, `at_most_one_outstanding`, `repost_only_when_consumed`, `step_faults`; `EvQueueRefines` (event/console queue ⊑ `AbsQueue`)",
+ "C15": "`stream_exactly_once_in_order`, `at_most_one_outstanding`, `repost_only_when_consumed`, `step_faults`, `utf8_roundtrip`; `EvQueueRefines` (event/console queue ⊑ `AbsQueue`)",
  "C16": "`sendChain_bytes`, `receiveComplete_spec`, `inv_run`, `buffers_never_lost`",
  "C17": "`ring_refines_fifo`, `send_keeps_window`, `one_credit_request`, `lossfree`, `arith_panic_free`",
  "C18": "`frame`, `request_listening/not_listening`, `unknown_no_effect`, `recv_after_peer_shutdown`, `posted_step`",
  "C19": "`same_token_again` (concrete queue), `stocking_fresh_queue`, `owning_exactly_once_in_order`, `poll_spec`, `input_exactly_once_in_order`; `EvQueueRefines`",
- "C20": "request encoders vs spec tables, `order_prefix`, `ok_only_if_all_expected`, `backing_never_released_while_attached`, `pcmChunks_concat/bounds`, `pcm_xfer_any_device`, `pcm_xfer_no_device_errors`, EDID `preferred_eq_spec`, `no_panic`; `CmdQueueRefines` (command queue ⊑ `AbsQueue`)",
+ "C20": "request encoders vs spec tables, `order_prefix`, `ok_only_if_all_expected`, `backing_never_released_while_attached`, `backing_never_released_any_device` (every device, every history), `pcmChunks_concat/bounds`, `pcm_xfer_any_device`, `pcm_xfer_no_device_errors`, EDID `preferred_eq_spec`, `no_panic`; `CmdQueueRefines` (command queue ⊑ `AbsQueue`)",
 }
 def k(n):
     return f"{n:,}".replace(",", " ")
